@@ -38,15 +38,27 @@ package container
 //@   property C05 C17
 //@   requires p != nil
 //
+// C17 / C16: a non-animated extended file is accepted only with its image
+// (a prefix that ends before the image chunk must not parse as a picture
+// with zero frames).
 //@ func (p *Parser) parseVP8XChunks
-//@   property C05 C17
+//@   property C05 C17 C16
 //@   requires p != nil
+//@   modifies *
+//@   loop 0: invariant isAnim == old(p.features.HasAnim)
+//@   loop 0: invariant 0 <= animChunks && len(buf) <= old(len(buf)) && animChunks <= old(len(buf)) - len(buf)
+//@   loop 0: invariant !isAnim && animChunks == 0 ==> len(p.frames) == old(len(p.frames))
+//@   loop 0: invariant len(p.frames) >= old(len(p.frames))
 //@   loop 0: decreases len(buf)
+//@   ensures result == nil && !old(p.features.HasAnim) ==> len(p.frames) >= 1
 //
 //@ func (p *Parser) parseExtSingleImage
 //@   property C05 C17
 //@   requires p != nil
+//@   modifies *
+//@   loop 0: invariant len(p.frames) == old(len(p.frames))
 //@   loop 0: decreases len(buf)
+//@   ensures result == nil ==> len(p.frames) == old(len(p.frames)) + 1
 //
 //@ func parseANMF
 //@   property C05
